@@ -11,7 +11,8 @@
    is therefore stated for states that satisfy CostInv, and CostInv is established per observed
    state by C04_cost_checker_sound, not by induction over traces.  See docs/C04.md. *)
 From Coq Require Import Lia.
-From Ctg Require Import Base Net BaseFacts NetFacts TreeState TreeStateFacts.
+From Coq Require Import Permutation.
+From Ctg Require Import Base Net BaseFacts NetFacts TreeState TreeStateFacts TreeStateInv.
 
 (* utils.MaxCounter: after ANY sequence of add/discard from empty, the counter holds exactly the
    multiset the sequence denotes and max() is the maximum of that multiset (None = -inf = empty) *)
@@ -89,3 +90,80 @@ Proof.
   exists 0. vm_compute. repeat split; reflexivity.
 Qed.
 Print Assumptions C04_remove_ind_former_witness_ok.
+
+(* ======================================================================================== *)
+(* The inductive step (Proofs/TreeStateInv.v).  InvC n s is the cost invariant stated FROM THE
+   NETWORK ALONE (leaf sets, no tree shape): every present cached legs of a node nd has exactly
+   the counts spec_count nd (C03's definition; the declared output at the root); every present
+   involved of a node with children (l, r) has counts spec_count l + spec_count r; every present
+   size / flops is the product of the dimensions over those key sets; when tracked, _flops and
+   _write are the sums, and _sizes the multiset, of the cached figures of the nodes in `children`,
+   all of which are then cached; multiplicity is the product of the sliced sizes; children is a
+   forest of disjoint unions.
+   PROVED preserved (under the stated precondition prim_pre) by: _add_node, _remove_node (leaf and
+   internal), contract_nodes_pair without precomputed figures and WITH precomputed legs / cost /
+   size that satisfy the tree rule (what C04_anneal_rule_is_tree_rule delivers), _update_tracked,
+   the cached getters get_legs (incl. the leaves-union fallback), get_involved, get_size, get_flops,
+   contract_stats (precondition: the dfs traversal enumerates the keys of `children` -- a complete
+   tree -- and they all have info entries) and the contractor-cache events.  NOT yet proved:
+   total_flops / total_write / max_size (same argument as contract_stats), remove_ind, restore_ind, the recipe
+   getters and sort/reset of contraction indices (these do not touch cost fields but are not
+   covered by the statement).  Hence the `_partial` suffix. *)
+Theorem C04_prim_preserves_inv_partial : forall n, 2 <= NN n -> NoDup (output n) ->
+  forall p s, InvC n s -> prim_pre n p s -> InvC n (step n p s).
+Proof. exact step_preserves_InvC. Qed.
+Print Assumptions C04_prim_preserves_inv_partial.
+
+(* totals_eq_rebuild by induction over primitive traces from a fresh tree (covered primitives) *)
+Theorem C04_trace_from_fresh_tree_partial : forall n, 2 <= NN n -> NoDup (output n) ->
+  forall tr, pre_trace n (prim_pre n) tr (init_state n) -> InvC n (run n tr (init_state n)).
+Proof. exact trace_from_fresh_InvC. Qed.
+Print Assumptions C04_trace_from_fresh_tree_partial.
+
+(* the set-level figures of InvC are the from-scratch figures of Model/Net.v, for ANY tree over
+   the node's leaves *)
+Theorem C04_cached_size_is_rebuild : forall n s nd i z t, InvC n s -> nget nd (info s) = Some i -> i_size i = Some z ->
+  length nd <> NN n -> Permutation (leaves t) nd -> z = node_size n (sliced s) false t.
+Proof. exact cached_size_is_net. Qed.
+Print Assumptions C04_cached_size_is_rebuild.
+
+Theorem C04_cached_flops_is_rebuild : forall n, 2 <= NN n -> forall s nd i z l r a b, InvC n s -> nget nd (info s) = Some i -> i_flops i = Some z ->
+  nget nd (children s) = Some (l, r) -> Permutation (leaves a) l -> Permutation (leaves b) r ->
+  z = node_flops n (sliced s) (Node a b).
+Proof. exact cached_flops_is_net. Qed.
+Print Assumptions C04_cached_flops_is_rebuild.
+
+Theorem C04_cached_legs_are_rebuild : forall n s nd i lg t, InvC n s -> nget nd (info s) = Some i -> i_legs i = Some lg ->
+  length nd <> NN n -> Permutation (leaves t) nd ->
+  wfl lg /\ forall j, lget0 j lg = lget0 j (sub_legs n (sliced s) t).
+Proof. exact cached_legs_are_net. Qed.
+Print Assumptions C04_cached_legs_are_rebuild.
+
+(* non-vacuity of the trace theorem: a real build (with a precomputed annealing-style step whose
+   figures come from compute_contracted_info) satisfies every precondition *)
+Example C04_trace_nonvacuous :
+  let tr := [PPair [0] [1] None None None; PGet GSize [0;1]; PPair [0;1] [2] None None None;
+             PGet GFlops [0;1;2]; PStats false; PRemoveNode [0;1;2]; PPair [0;1] [2] None None None] in
+  pre_trace ex_net (prim_pre ex_net) tr (init_state ex_net) /\ 2 <= NN ex_net /\ NoDup (output ex_net).
+Proof.
+  cbn zeta. split; [|split; [vm_compute; lia|repeat constructor; cbn; intuition lia]].
+  cbn [pre_trace prim_pre prim_pre0].
+  repeat match goal with
+  | |- _ /\ _ => split
+  | |- pair_pre _ _ _ _ _ _ _ => unfold pair_pre
+  | |- flops_pre _ _ => unfold flops_pre; right; left; vm_compute; discriminate
+  | |- good_node _ _ => unfold good_node, inrange
+  | |- inrange _ _ => unfold inrange
+  | |- True => exact I
+  | |- stats_pre _ _ _ => intros _; exists [([0;1], ([0], [1])); ([0;1;2], ([0;1], [2]))]; split; [vm_compute; reflexivity|split; [vm_compute; apply Permutation_refl|intros q Hq; vm_compute in Hq; destruct Hq as [<-|[<-|[]]]; vm_compute; discriminate]]
+  | |- NoDup _ => repeat constructor; cbn; intuition lia
+  | |- forall _, None = Some _ -> _ => intros ? ?; discriminate
+  | |- _ <> [] => discriminate
+  | |- forall k, In k _ -> _ => intros ? ?; vm_compute in *; intuition lia
+  | |- nget _ _ = None => vm_compute; reflexivity
+  | |- _ \/ _ => right
+  | |- In _ _ => vm_compute; intuition
+  | |- nget _ _ <> None => vm_compute; discriminate
+  | |- _ = 1 \/ _ => right
+  end.
+Qed.
